@@ -24,6 +24,8 @@ def observe(machine, st, S, what):
             plt.close(fig)
         finally:
             plt.close('all')
+    elif what in ('draw', 'drawnc'):
+        out.update(draw(machine, S, compact=(what == 'draw')))
     elif what == 'stim':
         from qce_circuit.addon_stim import to_stim
         out['text_len'] = len(str(to_stim(handle(S))))
@@ -34,3 +36,59 @@ def observe(machine, st, S, what):
     else:
         raise ValueError(what)
     return out
+
+
+def draw(machine, S, compact):
+    """plot_circuit with a channel order / label map chosen deterministically from the circuit; the description the real
+    plot path hands to the renderer (inside its own duration override) is captured together with the rectilinear
+    transforms of its draw components."""
+    import random
+    import matplotlib
+    matplotlib.use('Agg')
+    import matplotlib.pyplot as plt
+    from qce_circuit.visualization.visualize_circuit import display_circuit as DC
+    from tracer import q
+    R = machine.rec
+    h = handle(S)
+    occupied = []
+    for c in h.occupied_qubit_channels:
+        if c.id not in occupied:
+            occupied.append(c.id)
+    rnd = random.Random(len(machine.events) * 7919 + len(occupied) * 31 + sum(occupied))
+    order = rnd.sample(occupied, rnd.randint(0, len(occupied))) if occupied else []
+    mode = rnd.randint(0, 5)
+    if mode == 0:
+        order = order + [97]                       # a channel the circuit does not occupy: must be rejected
+    labels = None
+    if mode in (1, 2) and occupied:
+        labels = {ch: 'L%d' % ch for ch in rnd.sample(occupied, rnd.randint(1, len(occupied)))}
+    cap = {}
+    orig = DC.plot_circuit_description
+
+    def spy(description, **kw):
+        cap['rows'] = [int(x) for x in description.channel_indices]
+        cap['label_map'] = [[int(k), str(v)] for k, v in sorted(description.channel_label_map.items())]
+        cap['width'] = q(description.channel_width)
+        comps = description.get_operation_draw_components()
+        cap['ops'] = [R.oid(o) for o in description.operations]
+        cap['comps'] = []
+        for comp in comps:
+            t = comp.rectilinear_transform
+            cap['comps'].append({'x': q(t.origin_pivot.x), 'w': q(t.width), 'y10': int(round(t.origin_pivot.y * 10)), 'h10': int(round(t.height * 10))})
+        return orig(description=description, **kw)
+    DC.plot_circuit_description = spy
+    res = {'compact': bool(compact), 'order': order, 'labels': [[k, v] for k, v in sorted((labels or {}).items())], 'has_labels': labels is not None,
+           'occupied': occupied, 'rows': [], 'label_map': [], 'width': 0, 'ops': [], 'comps': []}
+    try:
+        fig, ax = DC.plot_circuit(h, channel_order=list(order), channel_map=labels, compact_visualization=compact)
+        plt.close(fig)
+        res['result'] = 'ok'
+        res.update(cap)
+    except ValueError as e:
+        res['result'] = 'rejected' if 'specific_order' in str(e) else 'error:ValueError:' + str(e)[:100]
+    except Exception as e:
+        res['result'] = 'error:' + e.__class__.__name__ + ':' + str(e)[:100]
+    finally:
+        DC.plot_circuit_description = orig
+        plt.close('all')
+    return {'draw': res}
